@@ -2,6 +2,7 @@
   C15 — Skip/AsyncSkip adapters behave as a forward-only cursor over the same bytes.
 -/
 import MediaSan.Lemmas.Adapters
+import MediaSan.Lemmas.ChunkData
 namespace MediaSan.Props.C15
 open MediaSan
 
@@ -70,6 +71,33 @@ theorem C15_seek_skip (s : Stream) (pos n : Nat) (hp : pos < u64Lim) :
     by_cases hlt : pos + n < u64Lim
     · simp [hlt]
     · simp [hlt, hle]
+
+/-- C15 for webpsan's `ChunkDataReader` (webpsan/src/reader.rs), at nesting depth `k` = 1 (a chunk of the file) or 2 (a
+    chunk inside an animation frame): for every stream, either kind of underlying skip, every state of the reader
+    stack in which `rem` bytes of body remain below the data reader, and EVERY history of read / skip /
+    stream_position / stream_len calls that stays inside those `rem` bytes (which lie inside the stream), the model
+    of the data reader (`rawRead` / `rawSkip`: what `Webp.sanitize` itself is built from) observes exactly the bytes,
+    positions and length of the ideal cursor over the same data, and ends `cost ops` bytes further.  Zero-length
+    reads and skips succeed also when the body is exhausted; beyond the body nothing is handed out
+    (`C15_chunk_data_beyond`). -/
+theorem C15_chunk_data_reader (s : Stream) (kind : SkipKind) (hl : s.len < u64Lim) (k : Nat) (hk : k = 1 ∨ k = 2)
+    (r : Webp.RS) (rem pos : Nat) (hb : r.bound k = some rem) (hfit : pos + rem ≤ s.len)
+    (ops : List Webp.DOp) (hin : Webp.cost ops ≤ rem) :
+    (Webp.histD k ops r []).run (idealOps s kind) pos = .ok (Webp.expected s ops pos []) := by
+  rw [run_eq_runF, Webp.histD_run s kind k hk hl ops r rem pos [] hb hin hfit]
+  rfl
+
+theorem C15_chunk_data_beyond (s : Stream) (kind : SkipKind) (k : Nat) (r : Webp.RS) (rem n pos : Nat)
+    (hb : r.bound k = some rem) (h : rem < n) :
+    (Webp.rawSkip r k n).run (idealOps s kind) pos = .parseErr .truncatedChunk ∧
+    (Webp.rawRead r k n).run (idealOps s kind) pos = .parseErr .truncatedChunk := by
+  rw [run_eq_runF, run_eq_runF, Webp.rawSkip_beyond s kind r k rem n hb h, Webp.rawRead_beyond s kind r k rem n hb h]
+  exact ⟨rfl, rfl⟩
+
+-- Non-vacuity: a 5-byte body at offset 8 of a 16-byte stream, read and skipped to exhaustion, then zero-length calls
+example : (Webp.histD 1 [.read 2, .pos, .skip 3, .skip 0, .read 0, .len, .pos] { l0 := .body [65,66,67,68] 5 5 } []).run
+    (idealOps (Stream.ofBytes [0,0,0,0,0,0,0,0, 1,2,3,4,5, 0, 9,9]) .seekable) 8 =
+    .ok [.bytes [1,2], .nat 10, .unit, .unit, .bytes [], .nat 16, .nat 13] := by decide
 
 -- Non-vacuity: a 3-byte buffer over an 8-byte stream with 2-byte reads underneath
 example : (hist [.read 2, .skip 1, .pos, .read 4, .len, .pos, .skip 1, .isEof] []).run
